@@ -189,6 +189,34 @@ func c13(c *wk.Ctx) {
 				}
 			}
 		}
+		// keys that are byte for byte equal to a listed prefix (a prefix matches itself)
+		for _, cmd := range cmds {
+			sh := shapeOf(cmd)
+			for _, exact := range []string{"ok:", "no:", "also-ok", "never"} {
+				var args [][]byte
+				for _, l := range sh.lead {
+					args = append(args, []byte(l))
+				}
+				nk := sh.minKeys
+				if nk < 2 && (sh.maxKeys == 0 || sh.maxKeys >= 2) {
+					nk = 2
+				}
+				for k := 0; k < nk; k++ {
+					key := exact
+					if k == 1 {
+						key = "ok:k1"
+					}
+					args = append(args, []byte(key))
+					for q := 0; q < sh.perKey; q++ {
+						args = append(args, []byte(fmt.Sprintf("val%d.%d", k, q)))
+					}
+				}
+				for t := 0; t < sh.trailMin; t++ {
+					args = append(args, []byte(fmt.Sprintf("opt%d", t)))
+				}
+				judge(cfg.name, cfg.ref, cmd, args, "key=prefix:"+exact)
+			}
+		}
 		// very long variadic commands (a DEL / MSET of tens of thousands of keys): positions beyond 2^15 and 2^16
 		for _, n := range []int{32767, 32768, 40000, 65535, 65536, 70001} {
 			for _, cmd := range []string{"del", "mset"} {
